@@ -161,8 +161,11 @@ pub fn panic_site(loc: &str) -> String {
     file.to_string()
 }
 
+/// A panic counts against the code under test only if it was raised in /repo, in one of its
+/// dependencies or in std; anything else (absolute /verif paths, or paths relative to the
+/// simulator's own workspace such as `ext/src/wire.rs`) is a harness bug.
 pub fn is_harness_location(loc: &str) -> bool {
-    loc.starts_with("/verif/") || loc.starts_with("src/") || loc.contains("/verif/sim/") || loc.contains("/verif/harness/")
+    !(loc.starts_with("/repo/") || loc.contains("/registry/src/") || loc.starts_with("/rustc/") || loc.contains("/library/"))
 }
 
 /// Execute with panic capture.
